@@ -62,7 +62,33 @@ def pool(names, full=True):
     return b
 
 
-def check_case(rules, rng):
+def late_enforcer(rules, rng):
+    """a file-backed enforcer that has already loaded its policy file when part of the rule set
+    arrives: the first rules come from the file, the rest are defaults registered afterwards"""
+    from oslo_config import cfg
+    from oslo_policy import policy
+    import yaml
+    d = tempfile.mkdtemp(prefix='verif_late_')
+    k = rng.randint(0, len(rules) - 1) if rules else 0
+    texts = {n: ev.rule_text(t, rng) for n, t in rules}
+    path = os.path.join(d, 'policy.yaml')
+    with open(path, 'w') as f:
+        f.write(yaml.safe_dump({n: texts[n] for n, _ in rules[:k]}, default_flow_style=False) if k else '{}')
+    conf = cfg.ConfigOpts()
+    conf([], project='verif', default_config_files=[], default_config_dirs=[])
+    e = policy.Enforcer(conf, policy_file=path)
+    conf.set_override('policy_dirs', [], group='oslo_policy')
+    conf.set_override('policy_default_rule', None, group='oslo_policy')
+    e.default_rule = None
+    e.load_rules()
+    e.check_rules()
+    for n, _ in rules[k:]:
+        e.register_default(policy.RuleDefault(n, texts[n]))
+    e.load_rules()
+    return e, texts, d
+
+
+def check_case(rules, rng, late=False):
     from oslo_policy import policy
     texts = {n: ev.rule_text(t, rng) for n, t in rules}
     c = {'kind': 'check', 'rules': [[n, ev.strip(t)] for n, t in rules], 'ok': 0, 'raised': 0, 'terminated': 1, 'crashed': 0,
@@ -72,7 +98,13 @@ def check_case(rules, rng):
         # 'default', or one of the names of the graph (validation must not let an undefined
         # reference pass because a fallback rule exists)
         dflt = rng.choice([('opt', None), None, ('name', sorted(texts)[0]), ('opt', sorted(texts)[-1])])
-        e = ev.make_enforcer(texts, dflt, via=rng.choice(['rules_obj', 'dict']))
+        tmpd = None
+        if late:
+            e, texts, tmpd = late_enforcer(rules, rng)
+            c['_texts'] = texts
+            c['_late'] = True
+        else:
+            e = ev.make_enforcer(texts, dflt, via=rng.choice(['rules_obj', 'dict']))
         c['ok'] = 1 if e.check_rules() else 0
         try:
             e.check_rules(raise_on_violation=True)
@@ -97,6 +129,9 @@ def check_case(rules, rng):
     except Exception as ex:
         c['crashed'] = 1
         c['_exc'] = '%s: %s' % (type(ex).__name__, ex)
+    finally:
+        if locals().get('tmpd'):
+            shutil.rmtree(tmpd, ignore_errors=True)
     return c
 
 
@@ -216,7 +251,7 @@ def run(ctx):
         cases.append(check_case(rules, rng))
     n_enum = len(cases)
     for i in range(300 if q else 8000):
-        cases.append(check_case(rand_graph(rng, rng.randint(2, 6)), rng))
+        cases.append(check_case(rand_graph(rng, rng.randint(2, 6)), rng, late=rng.random() < 0.3))
     n_check = len(cases)
     for i in range(120 if q else 2500):
         rules = rand_graph(rng, rng.randint(1, 4)) if rng.random() < 0.7 else [(names[j], p[b]) for j, b in enumerate(rng.choice(combos))]
